@@ -3,6 +3,7 @@
 // Op language (stateful; one chain per `reset`):
 //
 //	reset <era>              fresh Committee; era 0 = old CR rules, era 1 = ChangeCommitteeNewCRHeight 0,
+//	                         era 4 = DPoS 2.0 election rules from height 22 (DutyPeriod 40, CRClaimPeriod 5);
 //	                         era 3 = era 0 with CRVotingStartHeight 0 (rb 0 is a real rollback, not a reset);
 //	                         era 2 = era 0 with ProposalCRVotingPeriod 11 (proposal windows reach over a committee change)
 //	blk <h> <tx> <tx> …      ProcessBlock of a block built from symbolic transactions; a transaction that
@@ -158,6 +159,13 @@ func newWorld(era int) *world {
 	p.CRConfiguration.ChangeCommitteeNewCRHeight = 100000000
 	if era == 1 {
 		p.CRConfiguration.ChangeCommitteeNewCRHeight = 0
+	}
+	if era == 4 {
+		// DPoS 2.0 election rules after the first council: voting period [37,47), the block at 47 chooses the
+		// next members (processNextMembers), claim period [47,52], committee change at 52
+		p.CRConfiguration.DutyPeriod = 40
+		p.CRConfiguration.CRClaimPeriod = 5
+		p.DPoSV2StartHeight = 22
 	}
 	if era == 3 {
 		// CR voting from the first block: a rollback to height 0 goes through Committee.RollbackTo(0)
@@ -1026,7 +1034,7 @@ func oracle(t []string, out string) *hx.Violation {
 func gen(g *hx.Gen) {
 	r := g.R
 	for it := 0; it < g.N(90, 1500); it++ {
-		era := r.Intn(3)
+		era := []int{0, 1, 2, 0, 1, 2, 4}[r.Intn(7)]
 		g.Emit("reset %d", era)
 		h := uint32(0)
 		votes, props := 0, 0
